@@ -362,35 +362,42 @@ SUFFIX_RE = re.compile(r"^(.*)_sdn_unique_(\d+)$", re.S)
 
 
 def fresh_name_problems(nl, pre_ids, pre_lib_of):
+    """[(signature suffix, message)]: definition names unique per library; old definitions stay in
+    their library; every new definition is named <original>_sdn_unique_<N> (unnamed if the original is),
+    sits in the original's library behind the original with only other new definitions in between and
+    has the original's port shape."""
     bad = []
     for lib in nl._libraries:
         names = [d.name for d in lib._definitions if d.name is not None]
         if len(set(names)) != len(names):
-            bad.append("duplicate definition name in library %s" % lib.name)
+            bad.append(("duplicate", "duplicate definition name in library %s" % lib.name))
         ds = list(lib._definitions)
         for i, d in enumerate(ds):
             if id(d) in pre_ids:
                 if pre_lib_of[id(d)] is not lib:
-                    bad.append("old definition changed library")
+                    bad.append(("moved", "old definition %r changed library" % d.name))
                 continue
-            # walk back over new definitions to the old one this block sits behind
-            j = i - 1
-            while j >= 0 and id(ds[j]) not in pre_ids:
-                j -= 1
-            if j < 0:
-                bad.append("new definition %r not behind an old definition of its library" % d.name)
+            if d.name is None:
+                j = i - 1
+                while j >= 0 and id(ds[j]) not in pre_ids:
+                    j -= 1
+                if j < 0 or ds[j].name is not None:
+                    bad.append(("position", "unnamed new definition is not behind an unnamed old definition of its library"))
                 continue
-            o = ds[j]
-            if o.name is None:
-                if d.name is not None:
-                    bad.append("copy of unnamed definition got a name")
+            m = SUFFIX_RE.match(d.name)
+            if not m:
+                bad.append(("name", "new definition %r is not named <original>_sdn_unique_<N>" % d.name))
                 continue
-            m = SUFFIX_RE.match(d.name or "")
-            if not m or m.group(1) != o.name:
-                bad.append("new definition %r does not sit right behind its original (found %r)" % (d.name, o.name))
+            cands = [k for k in range(i) if ds[k].name == m.group(1)]
+            if not cands:
+                bad.append(("library", "the original %r of new definition %r is not in front of it in its library" % (m.group(1), d.name)))
                 continue
-            if len(d._ports) != len(o._ports) or [len(p._pins) for p in d._ports] != [len(p._pins) for p in o._ports]:
-                bad.append("new definition %r differs in port shape from %r" % (d.name, o.name))
+            k = cands[-1]
+            if any(id(ds[x]) in pre_ids for x in range(k + 1, i)):
+                bad.append(("position", "new definition %r does not sit right behind its original" % d.name))
+            o = ds[k]
+            if [len(p._pins) for p in d._ports] != [len(p._pins) for p in o._ports]:
+                bad.append(("shape", "new definition %r differs in port shape from %r" % (d.name, o.name)))
     return bad
 
 
@@ -425,6 +432,10 @@ def eval_uniquify(spec, drv):
     except IllFormed:
         R.skipped = "input-not-elaborable"
         return R
+    chk = drv.ask({"fn": "spec", "design": design})
+    if "error" in chk or not chk["wf"]:
+        R.skipped = "input-out-of-domain"
+        return R
     pre_ids = {id(d) for lib in nl._libraries for d in lib._definitions}
     pre_lib_of = {id(d): d._library for lib in nl._libraries for d in lib._definitions}
     n_pre = len(pre_ids)
@@ -433,7 +444,7 @@ def eval_uniquify(spec, drv):
         R.corr.append(("driver answers uniquify", None, ans["error"], None))
         return R
     if not ans["finished"]:
-        R.skipped = "model-fuel"
+        R.corr.append(("uniquify model finished within %d iterations (hypothesis `finished` of the theorems)" % UFUEL, None, False, None))
         return R
     mo = ans["design"]
     n_new_named = sum(1 for D in mo["defs"][n_pre:] if D["name"] is not None)
@@ -489,7 +500,7 @@ def eval_uniquify(spec, drv):
         R.spec.append(("uniquify.elab.ill_formed", str(e)))
     fp = fresh_name_problems(nl, pre_ids, pre_lib_of)
     if fp:
-        R.spec.append(("uniquify.names." + fp[0].split(" ")[0], "; ".join(fp[:3])))
+        R.spec.append(("uniquify.names." + fp[0][0], "; ".join(m for _, m in fp[:3])))
     # second run changes nothing
     c0 = U.MOD_NAME_UID
     try:
